@@ -41,6 +41,10 @@ def programs(tier):
         ("rename", "(lambda M: M.a.rename('r').sum() + M.a.sum())(L)"),
         ("rename", "(lambda M: (M.a.rename('r') + M.a).to_frame('s').merge(M, left_index=True, right_index=True))(L)"),
         ("rename", "(lambda M: dx.concat([M.add_prefix('p_'), M.add_suffix('_s'), M]))(L)"),
+        ("rename-index", "L.index.rename('key')"),
+        ("rename-index", "(L + 1).index.rename('key')"),
+        ("rename-index", "(lambda M: M.index.rename('key').size + M.reset_index().a.sum())(L)"),
+        ("rename-index", "(lambda M: dx.concat([M.index.rename('key').to_frame(), M.index.to_frame()]))(L[L.a > 0])"),
         ("rename_axis", "(lambda M: dx.concat([M.rename_axis(index='k').reset_index(), M.reset_index()]))(L)"),
         ("to_frame", "(lambda S: dx.concat([S.to_frame('x'), S.to_frame('y')]))(L.a + 1)"),
         ("reset_index", "(lambda M: dx.concat([M.reset_index(), M.reset_index(drop=True)]))(L[L.a > 0])"),
